@@ -224,6 +224,11 @@ func visitInstr(fr *frame, instr ssa.Instruction) continuation {
 		} else if sp, ok := x.(*symElemPtr); ok && instr.Op == token.MUL {
 			fr.env[instr] = curTT.loadSymElem(sp)
 		} else {
+			if instr.Op == token.MUL && len(released) != 0 {
+				if a, ok := x.(*value); ok {
+					checkReleased(fr, a, instr.Pos())
+				}
+			}
 			fr.env[instr] = unop(instr, x)
 		}
 
@@ -296,7 +301,11 @@ func visitInstr(fr *frame, instr ssa.Instruction) continuation {
 			k := int(curPC.concretize(sp.idx))
 			sp.cells[k] = fr.get(instr.Val)
 		} else {
-			store(mustDeref(instr.Addr.Type()), fr.get(instr.Addr).(*value), fr.get(instr.Val))
+			addr := fr.get(instr.Addr).(*value)
+			if len(released) != 0 {
+				checkReleased(fr, addr, instr.Pos())
+			}
+			store(mustDeref(instr.Addr.Type()), addr, fr.get(instr.Val))
 		}
 
 	case *ssa.If:
